@@ -304,7 +304,7 @@ func checkC11(c c11Case) error {
 		}
 		for _, cr := range res.Calls {
 			if (len(cr.Errors) != 0) != (cr.Tag == "rejected") {
-				return fmt.Errorf("%s: call in %s (%s) reported %q (output %s)", v.name, cr.Test, cr.Tag, cr.Errors, clip(out))
+				return fmt.Errorf("%s: call in %s (%s) reported %q (output %s)", v.name, cr.Test, cr.Tag, cr.Errors, vhClip(out))
 			}
 		}
 		got := observedFiles()
